@@ -25,3 +25,41 @@ package gossip
 //@   loop 1 invariant[left-not-learned] forall id string :: id in s.nodes && !old(id in s.nodes) ==> (exists j int :: 0 <= j && j <= rangeindex && digest[j].ID == id && !digest[j].Left && blankNode(s.nodes[id], id, digest[j].Addr))
 //@   loop 1 invariant[discovered] forall j int :: 0 <= j && j <= rangeindex && !digest[j].Left ==> digest[j].ID in s.nodes
 //@   loop 1 invariant[old-objects] forall id string :: old(id in s.nodes) ==> !fresh(old(s.nodes[id]))
+
+// ---- applyDeltaEntry / ApplyDelta (C02, C11, C13, C14) ------------------------
+
+//@ contract (*clusterState).applyDeltaEntry
+//@   serves C02 C11 C13 C14 C20
+//@   requires[locked] held(clusterState.mu)
+//@   requires[inv] csInv(s) && wInv(s)
+//@   requires[class] forall j int :: 0 <= j && j < len(entry.Entries) ==> entry.Entries[j].Internal == isInternalKey(entry.Entries[j].Key)
+//@   modifies entries(s.nodes), s.nodes[entry.ID].NodeMetadata, entries(s.nodes[entry.ID].Entries)
+//@   ensures[inv] csInv(s) && wInv(s)
+//@   ensures[known-kept] forall id string :: old(id in s.nodes) ==> id in s.nodes && s.nodes[id] == old(s.nodes[id])
+//@   ensures[only-named] forall id string :: id in s.nodes && !old(id in s.nodes) ==> id == entry.ID
+//@   ensures[frame-local] entry.ID == s.localID ==> s.nodes[s.localID].Version == old(s.nodes[s.localID].Version) && s.nodes[s.localID].Left == old(s.nodes[s.localID].Left)
+//@       && (forall k string :: (k in s.nodes[s.localID].Entries) == old(k in s.nodes[s.localID].Entries) && s.nodes[s.localID].Entries[k] == old(s.nodes[s.localID].Entries[k]))
+//@   ensures[monotone] old(entry.ID in s.nodes) ==> s.nodes[entry.ID].Version >= old(s.nodes[entry.ID].Version)
+//@   ensures[left-sticky] old(entry.ID in s.nodes) && old(s.nodes[entry.ID].Left) ==> s.nodes[entry.ID].Left
+//@   loop 1 frame state.NodeMetadata, entries(state.Entries)
+//@   loop 1 invariant[range] rangeindex < len(entry.Entries)
+//@   loop 1 invariant[inv] csInv(s) && wInv(s)
+//@   loop 1 invariant[state] state != nil && entry.ID != s.localID && entry.ID in s.nodes && s.nodes[entry.ID] == state
+//@   loop 1 invariant[known-kept] forall id string :: old(id in s.nodes) ==> id in s.nodes && s.nodes[id] == old(s.nodes[id])
+//@   loop 1 invariant[only-named] forall id string :: id in s.nodes && !old(id in s.nodes) ==> id == entry.ID
+//@   loop 1 invariant[monotone] old(entry.ID in s.nodes) ==> state.Version >= old(s.nodes[entry.ID].Version)
+//@   loop 1 invariant[left-sticky] old(entry.ID in s.nodes) && old(s.nodes[entry.ID].Left) ==> state.Left
+//@   loop 2 frame entries(state.Entries)
+//@   loop 2 invariant[inv] csInv(s) && wInv(s)
+//@   loop 2 invariant[state] state != nil && entry.ID != s.localID && entry.ID in s.nodes && s.nodes[entry.ID] == state
+//@   loop 2 invariant[known-kept] forall id string :: old(id in s.nodes) ==> id in s.nodes && s.nodes[id] == old(s.nodes[id])
+//@   loop 2 invariant[only-named] forall id string :: id in s.nodes && !old(id in s.nodes) ==> id == entry.ID
+//@   loop 2 invariant[monotone] old(entry.ID in s.nodes) ==> state.Version >= old(s.nodes[entry.ID].Version)
+//@   loop 2 invariant[left-sticky] old(entry.ID in s.nodes) && old(s.nodes[entry.ID].Left) ==> state.Left
+//@   loop 2 invariant[removed] forall k string :: k in seen && oldloop(k in state.Entries) && oldloop(state.Entries[k].Version) <= compactVersion ==> !(k in state.Entries)
+//@   loop 2 invariant[untouched] forall k string :: !(k in seen) || oldloop(state.Entries[k].Version) > compactVersion ==> (k in state.Entries) == oldloop(k in state.Entries) && state.Entries[k] == oldloop(state.Entries[k])
+//@   loop 2 invariant[no-new] forall k string :: k in state.Entries ==> oldloop(k in state.Entries)
+//@   loop 2 invariant[meta] state.NodeMetadata == oldloop(state.NodeMetadata)
+//@   loop 2 ensures[compact-removed] forall k string :: oldloop(k in state.Entries) && oldloop(state.Entries[k].Version) <= compactVersion ==> !(k in state.Entries)
+//@   loop 2 ensures[compact-kept] forall k string :: oldloop(k in state.Entries) && oldloop(state.Entries[k].Version) > compactVersion ==> k in state.Entries && state.Entries[k] == oldloop(state.Entries[k])
+//@   loop 2 ensures[compact-no-new] forall k string :: k in state.Entries ==> oldloop(k in state.Entries)
